@@ -265,7 +265,7 @@ func (c *Ctx) evalIdent(name string) Val {
 			return Val{Kind: VTuple, Elems: c.hook.result}
 		}
 		if v, ok := c.hook.binds[name]; ok {
-			return v
+			return c.derefCell(v)
 		}
 	}
 	if name == "result" {
@@ -293,8 +293,12 @@ func (c *Ctx) evalIdent(name string) Val {
 		return c.derefCell(v)
 	}
 	if c.own {
-		if c.head != nil {
-			for _, ins := range c.head.Instrs {
+		head := c.head
+		if head == nil {
+			head = c.st.curLoop
+		}
+		if head != nil {
+			for _, ins := range head.Instrs {
 				if phi, ok := ins.(*ssa.Phi); ok {
 					if phi.Comment == name {
 						if v, ok := c.st.vals[phi]; ok {
@@ -308,6 +312,10 @@ func (c *Ctx) evalIdent(name string) Val {
 		}
 		if v, ok := c.st.names[name]; ok {
 			return c.derefCell(v)
+		}
+		// a local that is not (yet) in scope on this path: its zero value
+		if t := c.fe.localType(name); t != nil {
+			return c.fe.zeroVal(t)
 		}
 	}
 	// package-level global
@@ -458,6 +466,11 @@ func (c *Ctx) evalIndex(e *Expr) Val {
 		et := x.GoT.Underlying().(*types.Slice).Elem()
 		loc := &Loc{Base: elemBase(et), Idx: []string{x.Arr, "(+ " + x.Off + " " + c.intTerm(i) + ")"}, T: et}
 		return c.loadPure(loc)
+	case x.Kind == VScalar && strings.HasPrefix(x.Sort, "(Array "):
+		// ghost SMT array
+		ks, vs := arraySorts(x.Sort)
+		k := c.coerceLit(i, ks)
+		return scalar(sel(x.T, k.T), vs, nil)
 	case x.Kind == VScalar && x.GoT != nil:
 		if m, ok := x.GoT.Underlying().(*types.Map); ok {
 			kb, vb, _ := mapBases(m)
@@ -789,6 +802,14 @@ func (c *Ctx) evalCall(e *Expr) Val {
 			return scalar(sel(arr, x.T), "(Array "+ks+" "+vs+")", nil)
 		}
 		return c.errorf("vals of %v", x)
+	case "emptyintmap": // Int -> Int ghost array, all zero
+		return scalar("((as const (Array Int Int)) 0)", "(Array Int Int)", nil)
+	case "store":
+		a := c.eval(e.Kids[0])
+		ks, vs := arraySorts(a.Sort)
+		i := c.coerceLit(c.eval(e.Kids[1]), ks)
+		v := c.coerceLit(c.eval(e.Kids[2]), vs)
+		return scalar("(store "+a.T+" "+i.T+" "+v.T+")", a.Sort, nil)
 	case "emptyset": // emptyset(string|int)
 		ks := SStr
 		if len(e.Kids) == 1 && e.Kids[0].Op == "id" && e.Kids[0].S != "string" {
@@ -891,3 +912,22 @@ var reflectKinds = map[string]int{
 
 var reflectKindNames = []string{"invalid", "bool", "int", "int8", "int16", "int32", "int64", "uint", "uint8", "uint16", "uint32", "uint64", "uintptr",
 	"float32", "float64", "complex64", "complex128", "array", "chan", "func", "interface", "map", "ptr", "slice", "string", "struct", "unsafe.Pointer"}
+
+// arraySorts splits "(Array K V)" into K and V.
+func arraySorts(s string) (string, string) {
+	s = strings.TrimSuffix(strings.TrimPrefix(s, "(Array "), ")")
+	depth := 0
+	for i, c := range s {
+		switch c {
+		case '(':
+			depth++
+		case ')':
+			depth--
+		case ' ':
+			if depth == 0 {
+				return s[:i], s[i+1:]
+			}
+		}
+	}
+	return s, ""
+}
